@@ -268,7 +268,7 @@ def tag_documents(rng, quick):
         urls = set()
         for _ in range(rng.randint(1, 5)):
             p = rng.choice(TAG_PATHS)
-            form = rng.randint(0, 4)
+            form = rng.randint(0, 5)
             pool = decl if (decl and rng.random() < 0.8) else TAG_NAMES
             tags = b"Tags " + b" ".join(rng.sample(pool, min(len(pool), rng.randint(1, 2)))) + b"\n"
             # the method-level Tags of a block that also has URL-level Tags name OTHER tags (most of the time)
@@ -294,6 +294,20 @@ def tag_documents(rng, quick):
                 lines.append(b"URL " + p + b"\n" + (b"  " + tags if rng.random() < 0.5 else b"") + b"  " + m + b" " + p + b"/sub\n    200 any\n")
                 used.discard((m, p))
                 used.add((m, p + b"/sub"))
+            elif form == 5:
+                # the URL-level Tags stands AFTER a method of the block whose context is closed by parentheses (it is still a child
+                # of the URL); a JSON-RPC variant half of the time
+                urls.add(p)
+                if rng.random() < 0.5:
+                    m2 = rng.choice([x for x in (b"GET", b"POST", b"PUT") if x != m])
+                    if (m2, p) in used:
+                        continue
+                    used.add((m2, p))
+                    lines.append(b"URL " + p + b"\n  " + m + b"\n  (\n    200 any\n  )\n  " + tags + b"  " + m2 + b"\n" +
+                                 (b"    " + tags_m if rng.random() < 0.3 else b"") + b"    200 any\n")
+                else:
+                    lines.append(b"URL " + p + b"\n  Protocol json-rpc-2.0\n  Method m\n  (\n    Params\n      {}\n  )\n  " + tags + b"  Method n\n")
+                    used.update((x, p) for x in (b"GET", b"POST", b"PUT"))
             else:
                 # a URL block with URL-level Tags and a child method, then a method with the same path that is not its child
                 # (written with its own path inside the block, so it leaves the block)
